@@ -33,14 +33,19 @@ def jobs(tier, seed):
         for idx in range(len(W.dag_shapes(n))):
             dags.append(wl("dag_workload", n, idx))
     if tier == "quick":
+        heavy = {"first_of", "quorum", "multi_merge", "jump_side_fanin"}
         for spec in CONFLUENT + RACY:
-            js.append({"label": f"{spec[0]}{spec[1]}|noack1", "wl": spec, "budget": {"noack": 1}})
+            if spec[0] in heavy:
+                js.append({"label": f"{spec[0]}{spec[1]}|all-orders", "wl": spec, "budget": {}})
+            else:
+                js.append({"label": f"{spec[0]}{spec[1]}|noack1", "wl": spec, "budget": {"noack": 1}})
         for spec in BIG:
             js.append({"label": f"{spec[0]}|noack0", "wl": spec, "budget": {}})
         for spec in dags:
             n = spec[1][0]
-            js.append({"label": f"dag{spec[1]}|noack{1 if n <= 3 else 0}", "wl": spec,
-                       "budget": {"noack": 1} if n <= 3 else {}})
+            small = n <= 2 or (n == 3 and spec[1][1] != 0)
+            js.append({"label": f"dag{spec[1]}|noack{1 if small else 0}", "wl": spec,
+                       "budget": {"noack": 1} if small else {}})
     else:
         for spec in CONFLUENT + RACY:
             js.append({"label": f"{spec[0]}{spec[1]}|noack2", "wl": spec, "budget": {"noack": 2}, "max_states": 400000})
@@ -91,6 +96,10 @@ def preflight(tier, seed):
     from vlib.selfcheck import determinism
 
     return determinism()
+
+
+def order_jobs(js):
+    return js
 
 
 if __name__ == "__main__":
